@@ -1,7 +1,7 @@
 (* Model/ConfigRun.v - judging one correspondence case inside the kernel's VM.
    For an abstract case and the implementation's outcome the harness gets back
      [impl = spec ; model ideal = spec ; impl = model q  for q = claimed vector, the claimed vector with
-      one flag switched off (in the order of the vector), ideal]. *)
+      one flag switched off (in the order of the vector), ideal ; model (claimed minus cls) = spec]. *)
 From TL Require Import Lib.Base Lib.GenTypes Model.ConfigTypes Gen.ConfigGen Model.Config.
 From Coq Require Import ZArith.
 
@@ -16,10 +16,15 @@ Definition without (q : quirks) (f : string) : quirks := filter (fun g => negb (
 
 Definition candidates (q : quirks) : list quirks := q :: map (without q) q ++ [ideal].
 
-Definition judge (q : quirks) (c : case) (impl : outcome) : list bool :=
+(* [cls] : the flags whose declared defect class contains the case (computed by the harness from the abstract
+   case); the extra last bit says whether switching off exactly those repairs the model on this case *)
+Definition without_all (q : quirks) (fs : list string) : quirks := filter (fun g => negb (smem g fs)) q.
+
+Definition judge (q : quirks) (cls : list string) (c : case) (impl : outcome) : list bool :=
   outcome_eqb impl (spec c)
   :: outcome_eqb (run ideal c) (spec c)
-  :: map (fun q' => outcome_eqb impl (run q' c)) (candidates q).
+  :: map (fun q' => outcome_eqb impl (run q' c)) (candidates q)
+  ++ [outcome_eqb (run (without_all q cls) c) (spec c)].
 
 (* for debugging / replay files: outcome as a pair (is exit 2, count) *)
 Definition show (o : outcome) : nat * nat := match o with Exit2 => (1, 0) | Ran n => (0, n) end.
